@@ -404,11 +404,39 @@ def run(ctx):
     corr = evaluate(ctx, gen(ctx), ["dbg", "rel"])
     from harness import ldlib
     ldlib.part(ctx, corr, ["clamp", "backup", "affine"], "config_chain", cfgs=("dbg",))      # configurations in long double read back exactly
+    ctor_paths(ctx, corr)
     return corr
+
+
+def ctor_paths(ctx, corr, cfgs=("dbg", "rel")):
+    """the less used constructors of the owning data (harness/cpp/ctor_paths_harness.cpp, self-checking)"""
+    jobs = [(C.VERIF / "harness" / "cpp" / "ctor_paths_harness.cpp", ctx.work.path(f"ctorpaths_{cfg}"), cfg, []) for cfg in cfgs]
+    for (src, out, cfg, _), (rc, err) in zip(jobs, C.compile_many(jobs)):
+        if rc != 0:
+            raise C.CompileError(src, cfg, err)
+    what = {"backup": "backup<strided<array>> built by owning_data_t(configuration, extents): reported bounds, agreement with the parameter-pack path",
+            "thin": "shuffle / covariant_cast / backup<constant> built by their variadic constructors"}
+    for cfg in cfgs:
+        outs, _ = C.run_lines(ctx.work.path(f"ctorpaths_{cfg}"), list(what), timeout_per_line=2.0)
+        for op, o in zip(what, outs):
+            corr.configs[cfg] += 1
+            corr.case(("ctorpaths", op, cfg), True)
+            corr.dist["constructor-paths/" + op] += 1
+            bad = not o.startswith("ok ")
+            corr.add_obl("rebuild", 1, 1 if bad else 0)
+            if bad:
+                corr.violation("rebuild", f"{what[op]} ({cfg}): {o}", {"op": "ctorpaths", "which": op, "cfg": cfg}, impl=o, model="ok", oracle_fails=True,
+                               key={"kind": "ctorpaths", "which": op}, cfg=cfg)
 
 
 def replay(ctx):
     c = ctx.replay["case"]
+    if c and c.get("op") == "ctorpaths":
+        from vlib.framework import Corr as _Corr
+        corr = _Corr()
+        corr.add_obl("rebuild")
+        ctor_paths(ctx, corr, cfgs=(c.get("cfg", "dbg"),))
+        return corr
     if c and c.get("op") == "longdouble":
         from vlib.framework import Corr as _Corr
         from harness import ldlib
